@@ -507,6 +507,9 @@ func c01Trusts() []struct {
 		{"meta-other-use", func(c *Cfg) { c.Trust, c.Kds = tMeta, []KD{{"other", []int{0}}, {"signing", []int{1}}} }},
 		{"meta-garbage-cert", func(c *Cfg) { c.Trust, c.Kds = tMeta, []KD{{"signing", []int{0}}, {"signing", []int{-1}}} }},
 		{"meta-empty-descriptor", func(c *Cfg) { c.Trust, c.Kds = tMeta, []KD{{"signing", nil}, {"signing", []int{0}}} }},
+		{"meta-ecdsa-signing", func(c *Cfg) { c.Trust, c.Kds = tMeta, []KD{{"signing", []int{3}}} }},
+		{"meta-rsa+ecdsa-signing", func(c *Cfg) { c.Trust, c.Kds = tMeta, []KD{{"signing", []int{0}}, {"signing", []int{3}}} }},
+		{"pinned-ecdsa", func(c *Cfg) { c.Trust, c.C = tPinned, 3 }},
 		{"pinned", func(c *Cfg) { c.Trust, c.C = tPinned, 0 }},
 		{"pinned-other", func(c *Cfg) { c.Trust, c.C = tPinned, 1 }},
 		{"pinned-garbage", func(c *Cfg) { c.Trust, c.C = tPinned, -1 }},
@@ -567,7 +570,7 @@ func runC01(c *Ctx) {
 	for _, tr := range c01Trusts() {
 		cfg := defaultCfg()
 		tr.set(&cfg)
-		for _, signer := range []int{0, 1, 2, 9} {
+		for _, signer := range []int{0, 1, 2, 3, 9} {
 			for _, an := range keyAttacks {
 				for li, lay := range []layout{{signResp: true}, {signAssert: true}, {signAssert: true, enc: true}} {
 					if !c.Thorough() && (li+signer+len(an))%3 != 0 && an != "none" {
